@@ -373,3 +373,32 @@ impl Model {
         })
     }
 }
+
+#[cfg(vibrato_verif)]
+impl Model {
+    /// Returns the raw model (verification hook).
+    pub fn verif_raw_model(&self) -> &rucrf::RawModel {
+        &self.data.raw_model
+    }
+
+    /// Returns `(surface, feature, (left_id, right_id, cost), label_id)` of the user entries
+    /// (verification hook).
+    pub fn verif_user_entries(&self) -> Vec<(String, String, (u16, u16, i16), u32)> {
+        self.user_entries
+            .iter()
+            .map(|(w, p, l)| {
+                (
+                    w.surface().to_string(),
+                    w.feature().to_string(),
+                    (p.left_id, p.right_id, p.word_cost),
+                    l.get(),
+                )
+            })
+            .collect()
+    }
+
+    /// Returns whether the merged model is cached (verification hook).
+    pub fn verif_is_merged_cached(&self) -> bool {
+        self.merged_model.is_some()
+    }
+}
